@@ -7,3 +7,5 @@ import RSVerif.Properties.C04
 #print axioms RS.blocks_insert
 #print axioms RS.blocks_expose
 #print axioms RS.blocks_lanewise
+#print axioms RS.block_memory_codec
+#print axioms RS.resize_keeps_stale_blocks
